@@ -10,6 +10,7 @@ import (
 	"net"
 	"os"
 	"sync"
+	"syscall"
 	"time"
 )
 
@@ -25,19 +26,19 @@ type Datagram struct {
 
 // Net is the simulated network.
 type Net struct {
-	mu     sync.Mutex
-	socks  map[string]*Sock
-	start  time.Time
-	count  int
+	mu    sync.Mutex
+	socks map[string]*Sock
+	start time.Time
+	count int
 	// Filter, when set, maps each sent datagram to the datagrams to deliver
 	// (none = drop). It runs with the network lock released.
 	Filter func(d Datagram) []Datagram
 	// Log of everything handed to WriteMsgUDP (before the filter), and of
 	// everything delivered.
-	Sent      []Datagram
-	Delivered []Datagram
+	Sent          []Datagram
+	Delivered     []Datagram
 	Undeliverable int
-	LogCap    int
+	LogCap        int
 }
 
 // New creates a network. Call inside the bubble when virtual time is wanted.
@@ -188,6 +189,10 @@ func (s *Sock) WriteMsgUDP(b, oob []byte, addr *net.UDPAddr) (int, int, error) {
 	}
 	if addr == nil {
 		return 0, 0, fmt.Errorf("simnet: no destination address")
+	}
+	if addr.Port == 0 {
+		// what the kernel does: a datagram can arrive FROM port 0 (raw socket), but none can be sent TO it
+		return 0, 0, &net.OpError{Op: "write", Net: "udp", Addr: addr, Err: syscall.EINVAL}
 	}
 	n := s.n
 	d := Datagram{At: time.Since(n.start), Src: src, Dst: addr, Data: append([]byte(nil), b...)}
